@@ -159,6 +159,16 @@ def patched(mod, **names):
             setattr(mod, k, v)
 
 
+@contextlib.contextmanager
+def guarded(ctx, method, replay):
+    """an exception of the code under test on a valid input is a failing input"""
+    try:
+        yield
+    except Exception as e:  # noqa
+        ctx.fail({"kind": "raises", "method": method, "error": type(e).__name__},
+                 f"{method} raised {type(e).__name__}: {e}", replay)
+
+
 def phase_mode():
     """inplace | copy: how correlated_noise_surrogates applies the phases to the
     array returned by the cached original_data_fft()."""
@@ -307,6 +317,7 @@ def run(ctx):
     # A/B/C: white noise, Fourier, AAFT, refined AAFT — patched correspondence
     # ======================================================================
     ncase = 400 if quick else 3000
+    struct_bad = []
     for c in range(ncase):
         kind, data = gen_data(rng, nprng, quick)
         N, n = data.shape
@@ -318,7 +329,8 @@ def run(ctx):
         rp_, np_ = NpRandomProxy(seed), NpProxy()
         s = Surrogates(data.copy(), silence_level=3)
         ncalls = rng.choice([1, 2, 3])
-        with patched(SM, random=rp_, np=np_):
+        rep = {"data": data.tolist(), "numpy_RandomState_seed": seed}
+        with guarded(ctx, "white_noise_surrogates", rep), patched(SM, random=rp_, np=np_):
             for call in range(ncalls):
                 rp_.perms = []
                 out = s.white_noise_surrogates()
@@ -331,13 +343,13 @@ def run(ctx):
         rp_, np_ = NpRandomProxy(seed), NpProxy()
         s = Surrogates(data.copy(), silence_level=3)
         ncalls = rng.choice([1, 2, 3, 4])
-        with patched(SM, random=rp_, np=np_):
+        with guarded(ctx, "correlated_noise_surrogates", dict(rep, calls=ncalls)), \
+                patched(SM, random=rp_, np=np_):
             for call in range(ncalls):
                 s.correlated_noise_surrogates()
         if len(np_.fft.rfft_out) != 1 or len(np_.fft.irfft_in) != ncalls:
-            ctx.obligation("correlated_noise_surrogates: one cached rfft, one irfft per call",
-                           "correspondence", False,
-                           f"rfft calls={len(np_.fft.rfft_out)} irfft calls={len(np_.fft.irfft_in)}")
+            struct_bad.append(f"correlated_noise_surrogates x{ncalls}: rfft calls="
+                              f"{len(np_.fft.rfft_out)} irfft calls={len(np_.fft.irfft_in)}")
         else:
             cache = np_.fft.rfft_out[0]
             for i in range(N):
@@ -351,7 +363,8 @@ def run(ctx):
         rp_, np_ = NpRandomProxy(seed), NpProxy()
         s = Surrogates(data.copy(), silence_level=3)
         nit = rng.choice([0, 1, 2, 3])
-        with patched(SM, random=rp_, np=np_):
+        with guarded(ctx, "AAFT_surrogates/refined_AAFT_surrogates", dict(rep, n_iterations=nit)), \
+                patched(SM, random=rp_, np=np_):
             if rng.random() < 0.4:
                 s.correlated_noise_surrogates()     # a history before the call
                 np_.fft.irfft_out = []
@@ -364,16 +377,15 @@ def run(ctx):
                     impl.append(enc_mat(R))
                     ctx.count("gen:AAFT")
                 elif len(outs) != 1:
-                    ctx.obligation("AAFT_surrogates: exactly one irfft", "correspondence", False,
-                                   f"{len(outs)} irfft calls")
+                    struct_bad.append(f"AAFT_surrogates: {len(outs)} irfft calls")
                 else:
                     ctx.count("skipped-for-correspondence:ranked-array-has-ties")
             else:
                 R = s.refined_AAFT_surrogates(nit, output="true_amplitudes")
                 outs = np_.fft.irfft_out
                 if len(outs) != nit + 1:
-                    ctx.obligation("refined_AAFT_surrogates: 1 + n_iterations irfft calls",
-                                   "correspondence", False, f"{len(outs)} for n_iterations={nit}")
+                    struct_bad.append(f"refined_AAFT_surrogates: {len(outs)} irfft calls for "
+                                      f"n_iterations={nit}")
                 elif any(has_ties(o) or np.isnan(o).any() for o in outs):
                     ctx.count("skipped-for-correspondence:ranked-array-has-ties")
                 else:
@@ -427,11 +439,13 @@ def run(ctx):
                     npairs += sum(len(x) for x in tw[i])
                 # the walk kernel at its own boundary, on the same tables
                 dp2 = DrawProxy(draws)
-                with patched(K, random=dp2):
-                    o2 = K._twin_surrogates_s(N, nT, tw, np.ascontiguousarray(data))
                 reqs.append(f"walk_s {nT} {enc_vec(draws)} {enc_mats(tw, enc_imat)}")
-                idx_expected = None
-                impl.append(("walk", o2, data, dp2.used))
+                try:
+                    with patched(K, random=dp2):
+                        o2 = K._twin_surrogates_s(N, nT, tw, np.ascontiguousarray(data))
+                    impl.append(("walk", o2, data, dp2.used))
+                except Exception as e:  # noqa
+                    impl.append("raise:" + type(e).__name__)
             ctx.case(("twin_s", data.tobytes().hex(), dim, delay, str(thr), md, enc_vec(draws[:8])),
                      nT >= 4 and npairs > 0,
                      {"generator": "twin_surrogates", "data": data.tolist(), "dimension": dim,
@@ -506,6 +520,9 @@ def run(ctx):
             ctx.count("gen:RecurrencePlot.twin_surrogates")
             ctx.count("rp-twins:" + ("some" if npairs else "none"))
 
+    ctx.obligation("call structure: one memoised rfft and one irfft per correlated_noise_surrogates "
+                   "call, one irfft per AAFT call and per refinement step", "correspondence",
+                   not struct_bad, "\n".join(struct_bad[:5]))
     # ---------------- run the model, compare -------------------------------
     # walk requests carry implementation *values*; the model answers indices
     model = common.driver("C15", reqs)
